@@ -74,6 +74,9 @@ def make_installation(gen, rnd, *, modes=None, fans=None, ac_ids=None, sensors=N
         st["control_method"] = "temperature" if st["sensor"] and rnd.random() < 0.5 else "damper"
         if gen == 4:
             st["turbo_support"] = (rnd.random() < 0.5) if turbo is None else turbo
+            if st["sensor"] and rnd.random() < 0.3:
+                # a paired sensor that has no reading at the moment: still a sensor
+                st["temp_raw11"] = None
     return inst
 
 
@@ -459,6 +462,7 @@ def churn_state(gen, inst, w, rnd):
         st["control_method"] = "temperature" if st["sensor"] and rnd.random() < 0.5 else "damper"
         if gen == 4:
             st["turbo_support"] = rnd.random() < 0.5
+            st["temp_raw11"] = None if st["sensor"] and rnd.random() < 0.3 else 700 + rnd.randrange(64)
         if gen == 5 and not st["sensor"]:
             st["sp_raw"] = rnd.choice([0xFF, st.get("sp_raw", 0xFF), 120])
         return w.console.frame_zone_status()
